@@ -24,6 +24,15 @@ def _truthiness_operands(test):
     return out
 
 
+def _in_test_position(node):
+    """node is (part of) the test of an if / while / conditional expression (through and / or / not)"""
+    cur = node
+    par = getattr(cur, 'parent', None)
+    while isinstance(par, (ast.BoolOp, ast.UnaryOp)):
+        cur, par = par, getattr(par, 'parent', None)
+    return isinstance(par, (ast.If, ast.IfExp, ast.While)) and par.test is cur
+
+
 def truthiness_on_value_slots(ctx, modules, slots=None):
     """no `if x.<slot>:` on slots that may hold falsy values (limits of 0, constant 0 / '', value False ...)"""
     m = ctx.m
@@ -41,6 +50,19 @@ def truthiness_on_value_slots(ctx, modules, slots=None):
                         ctx.bad(f'{fi.qualname}:`{src(t)}` tested by truthiness', node,
                                 f'`{src(node.test)}` asks whether `{src(t)}` is set by its truth value, but 0, 0.0, \'\', False and empty containers are '
                                 f'legitimate values of `{t.attr}`: for them the branch is taken as if nothing was set', fi)
+            elif isinstance(node, ast.BoolOp) and isinstance(node.op, ast.Or) and not _in_test_position(node):
+                # `x.<slot> or D` as a value: a legitimate falsy value of the slot is replaced by D - harmless only when D is
+                # itself the falsy constant (`self.minlen or 0`)
+                n += 1
+                for i, v in enumerate(node.values[:-1]):
+                    if isinstance(v, ast.Attribute) and v.attr in slots:
+                        rest = node.values[i + 1:]
+                        if all(isinstance(r, ast.Constant) and not r.value for r in rest):
+                            continue
+                        ctx.analysed(fi)
+                        ctx.bad(f'{fi.qualname}:`{src(v)}` tested by truthiness', node,
+                                f'`{src(node)}` replaces a legitimate falsy value of `{src(v)}` (0, 0.0, \'\', False, an empty container) by '
+                                f'`{src(rest[-1])}` as if nothing was set: e.g. a declared limit of 0 is taken as no limit', fi)
     ctx.ok(f'truthiness scan over {len(modules)} modules', None, f'{n} conditions inspected, value slots {sorted(slots)} are tested by identity / comparison only')
 
 
